@@ -224,7 +224,8 @@ def get_source_area(f, g):
     M_shifted[1:] = M_cum[:-1]
 
     # map back to original positions
-    g_rescaled = np.empty_like(g_flat)
+    # (values are sums of f: an integer-typed g must not truncate them)
+    g_rescaled = np.empty_like(g_flat, dtype=M_shifted.dtype)
     g_rescaled[order] = M_shifted
 
     return g_rescaled.reshape(g.shape)
